@@ -321,6 +321,17 @@ func c04Enumerate(sh *evidence.Shard) {
 
 	addrLens := []int{1, 2, 62, 63, 64, 65, 2047, 2048}
 	msgLens := []int{0, 1, 63, 64, 2047, 2048}
+	if th {
+		// thorough: EVERY address length 1..2048 and message length 0..2048
+		addrLens, msgLens = nil, nil
+		for l := 1; l <= MaxAddressLength; l++ {
+			addrLens = append(addrLens, l)
+		}
+		for l := 0; l <= MaxMessageLength; l++ {
+			msgLens = append(msgLens, l)
+		}
+	}
+	boundary := map[int]bool{0: true, 1: true, 2: true, 62: true, 63: true, 64: true, 65: true, 2047: true, 2048: true}
 	trailings := [][]byte{nil, {0x44}, {0x44, 0x01, 0x05}}
 	classes := []int{0, 1, 2, 3}
 
@@ -331,6 +342,9 @@ func c04Enumerate(sh *evidence.Shard) {
 		for _, cl := range classes {
 			if !th && cl >= 2 && al != 63 && al != 2048 {
 				continue
+			}
+			if th && !boundary[al] && cl != al%4 {
+				continue // non-boundary lengths: one content class each (rotating), every padding
 			}
 			for pad := tcpRequestPadding.Min; pad < tcpRequestPadding.Max; pad++ {
 				for _, tr := range trailings {
@@ -347,6 +361,9 @@ func c04Enumerate(sh *evidence.Shard) {
 	for _, ml := range msgLens {
 		for _, cl := range classes {
 			if !th && cl >= 2 && ml != 64 && ml != 2048 {
+				continue
+			}
+			if th && !boundary[ml] && cl != ml%4 {
 				continue
 			}
 			for _, okv := range []bool{true, false} {
